@@ -529,10 +529,22 @@ package core
 //@   ensures [displaced-returned] forall i :: {result[i]} 0 <= i && i < len(result) ==> result[i] != nil && allocated(result[i]) && result[i].meta != nil
 //@   modifies all RegionsInfo.*, all regionTree.*, all regionItem.*, all map[uint64]*regionItem, all map[uint64]*regionTree, ghost bthas, ghost btlen
 
+// DeleteRegion: with the region storage switched on, the deletion goes through the region storage's own DeleteRegion,
+// which also takes the region out of the batch that is waiting to be flushed (otherwise the next flush writes a
+// deleted region back).
+//@ func (*RegionStorage).DeleteRegion
+//@   props C06 C17
+//@   ensures [no-longer-pending] !in(s.batchRegions, callres("regionPath", 1))
+//@   ensures [others-stay-pending] forall k string :: {in(s.batchRegions, k)} k != callres("regionPath", 1) ==> in(s.batchRegions, k) == old(in(s.batchRegions, k)) && s.batchRegions[k] == old(s.batchRegions[k])
+//@   option event rsDelete
+//@   option nosafety
+//@   modifies s.batchRegions[*], ghost kvhas, ghost kvval, ghost evres
 //@ func (*Storage).DeleteRegion
-//@   assumed
+//@   props C06 C17
+//@   ensures [deleted-through-the-region-storage] s.useRegionStorage > 0 ==> count("rsDelete") == old(count("rsDelete")) + 1
 //@   option event DeleteRegion
-//@   modifies ghost kvhas, ghost kvval
+//@   option nosafety
+//@   modifies all RegionStorage.batchRegions, all map[string]*metapb.Region, ghost kvhas, ghost kvval, ghost evres
 //@ func (*Storage).SaveRegion
 //@   assumed
 //@   option event SaveRegion
